@@ -24,7 +24,7 @@ TIMEOUT = {"quick": 900, "thorough": 5400}
 ASSUMPTIONS = ["zeta strictly inside (0,1); breakpoint intervals narrower than 1e-9 are skipped and their width added to the tolerance",
                "multi-rank behaviour observed over vlib.fakempi (thread communicator), equal partitions",
                "total weight > 0 (a population with zero total weight has no defined comb)"]
-REQUIRED_COUNTERS = {"comb_calls": 500, "rank_runs": 10, "distinct_arrival_orders": 4}
+REQUIRED_COUNTERS = {"comb_calls": 500, "rank_runs": 10, "distinct_arrival_orders": 4, "contract_comb_postcondition": 10}
 PATTERNS = ["ones", "random", "zeros", "signs", "decades", "dominant", "single", "tiny", "ties"]
 
 
@@ -89,6 +89,8 @@ def gen_cases(tier, seed):
                         cases.append({"type": "ranks", "R": R, "n": npr, "pattern": pat, "container": cont,
                                       "s": int(rng.integers(1 << 30)), "via": str(rng.choice(["sr", "prop"])),
                                       "group": "ranks-%d-%d-%s" % (R, npr, cont), "cost": 2})
+    for wt, ad in (("rhf", None), ("uhf", "reverse")) if q else (("rhf", None), ("uhf", "reverse"), ("uhf", None), ("rhf", "forward")):
+        cases.append({"type": "driver", "wt": wt, "ad_mode": ad, "s": int(rng.integers(1 << 30)), "group": "drv-%s-%s" % (wt, ad), "cost": 40})
     return cases
 
 
@@ -358,4 +360,8 @@ def run_ranks(case):
 
 
 def run_case(case):
+    if case["type"] == "driver":
+        from vlib import contracts
+
+        return contracts.driver_case(("sr",), ["comb-postcondition"], case, "C07")
     return run_single(case) if case["type"] == "single" else run_ranks(case)
